@@ -1121,6 +1121,30 @@ struct ClientSide {
 
 type Completer = Box<dyn FnOnce()>;
 
+thread_local! {
+    /// set by the `write` / `hydrate` ops for a nested carrier (`svn` `arn` `rn`): the value of the
+    /// inner `SharedValue` that the carrier's initialiser / fetcher creates synchronously
+    static NEST: std::cell::RefCell<Option<String>> = const { std::cell::RefCell::new(None) };
+}
+fn nest_value() -> Option<String> {
+    NEST.with(|n| n.borrow().clone())
+}
+fn inner_value_of(raw: &[u8]) -> String {
+    format!("inner-of-{}", hex(raw))
+}
+/// what the nested initialiser / fetcher does first, on the server …
+fn make_inner_server(v: String) {
+    let _ = <FromToStringCodec as Named<String>>::shared(move || v);
+}
+/// … and on the client
+fn make_inner_client(v: String, fetches: &Arc<AtomicUsize>) {
+    let fetches = Arc::clone(fetches);
+    let _ = <FromToStringCodec as Named<String>>::shared(move || {
+        fetches.fetch_add(1, Ordering::SeqCst);
+        v
+    });
+}
+
 /// Creates the value's carrier on the server under `owner` (shared context = the spy around the
 /// real `SsrSharedContext`). Returns what must be kept alive and how to complete the load.
 fn server_make<T, Ser>(
@@ -1171,7 +1195,12 @@ where
         }
         Variant::ArcRes | Variant::Res => {
             let slot = Arc::new(Mutex::new(Some(load)));
+            let nest = nest_value();
             let fetcher = move |_: ()| {
+                // a fetcher that synchronously creates another carrier before it returns its future
+                if let Some(v) = nest.clone() {
+                    make_inner_server(v);
+                }
                 let load = slot.lock().unwrap().take();
                 async move {
                     match load {
@@ -1200,8 +1229,19 @@ where
             (keep, Some(completer))
         }
         Variant::Shared => {
-            let keep: Box<dyn Any> =
-                owner.with(|| Box::new(<Ser as Named<T>>::shared(move || value).into_inner()) as Box<dyn Any>);
+            let nest = nest_value();
+            let keep: Box<dyn Any> = owner.with(|| {
+                Box::new(
+                    <Ser as Named<T>>::shared(move || {
+                        // an initialiser that synchronously creates another carrier
+                        if let Some(v) = nest {
+                            make_inner_server(v);
+                        }
+                        value
+                    })
+                    .into_inner(),
+                ) as Box<dyn Any>
+            });
             (keep, None)
         }
     })
@@ -1236,11 +1276,23 @@ where
             fetches.fetch_add(1, Ordering::SeqCst);
         }
     };
+    let nest = nest_value();
     let reinit = {
-        let (fetches, expected) = (Arc::clone(fetches), expected.clone());
+        let (fetches, expected, nest) = (Arc::clone(fetches), expected.clone(), nest.clone());
         move || {
+            if let Some(v) = nest {
+                make_inner_client(v, &fetches);
+            }
             fetches.fetch_add(1, Ordering::SeqCst);
             expected
+        }
+    };
+    let nested_fetch = {
+        let fetches = Arc::clone(fetches);
+        move || {
+            if let Some(v) = nest.clone() {
+                make_inner_client(v, &fetches);
+            }
         }
     };
     owner.with(|| match variant {
@@ -1253,12 +1305,16 @@ where
         }
         Variant::ArcRes => {
             let r = <Ser as Named<T>>::arc_res(
-                move |_| {
+                {
+                    let nested_fetch = nested_fetch.clone();
+                    move |_| {
+                    nested_fetch();
                     // counted when the load is actually polled, not when the future is built
                     let refetch = refetch.clone();
                     async move {
                         refetch();
                         futures::future::pending::<T>().await
+                    }
                     }
                 },
                 blocking,
@@ -1269,12 +1325,16 @@ where
         }
         Variant::Res => {
             let r = <Ser as Named<T>>::res(
-                move |_| {
+                {
+                    let nested_fetch = nested_fetch.clone();
+                    move |_| {
+                    nested_fetch();
                     // counted when the load is actually polled, not when the future is built
                     let refetch = refetch.clone();
                     async move {
                         refetch();
                         futures::future::pending::<T>().await
+                    }
                     }
                 },
                 blocking,
@@ -1324,6 +1384,8 @@ struct W {
     kind: Kind,
     variant: Variant,
     blocking: bool,
+    /// its initialiser / fetcher synchronously creates an inner `SharedValue` (write k + 1)
+    nested: bool,
     raw: Vec<u8>,
     /// `Ser::encode(value).into_encoded_string()` computed by the real codec
     enc: String,
@@ -1620,6 +1682,13 @@ fn op(c: &mut Case, tags: &HashMap<String, String>, line: &str) -> String {
             format!("id {}", c.spy.next_id().into_inner())
         }
         ["write", kind, variant, rest @ ..] => {
+            // `svn` `arn` `rn`: the carrier's initialiser / fetcher creates an inner SharedValue first
+            let (variant, nested) = match *variant {
+                "svn" => ("sv", true),
+                "arn" => ("ar", true),
+                "rn" => ("r", true),
+                v => (v, false),
+            };
             let (Some(kind), Some((variant, blocking))) = (Kind::parse(kind), Variant::parse(variant)) else {
                 return "bad-op".into();
             };
@@ -1635,7 +1704,11 @@ fn op(c: &mut Case, tags: &HashMap<String, String>, line: &str) -> String {
             let Some(enc) = with_kind!(kind, enc_of(&raw)) else { return "bad-op".into() };
             let hyd = c.spy.get_is_hydrating();
             let log_from = c.spy.log.lock().unwrap().len();
-            let Some((keep, completer)) = with_kind!(kind, server_make(&c.owner, &c.spy, variant, blocking, &raw)) else {
+            let inner_value = inner_value_of(&raw);
+            NEST.with(|n| *n.borrow_mut() = if nested { Some(inner_value.clone()) } else { None });
+            let made = with_kind!(kind, server_make(&c.owner, &c.spy, variant, blocking, &raw));
+            NEST.with(|n| *n.borrow_mut() = None);
+            let Some((keep, completer)) = made else {
                 return "bad-op".into();
             };
             // let the resource start its load (it then waits for `complete`)
@@ -1643,10 +1716,19 @@ fn op(c: &mut Case, tags: &HashMap<String, String>, line: &str) -> String {
             let evs: Vec<Ev> = c.spy.log.lock().unwrap()[log_from..].to_vec();
             let ids: Vec<usize> = evs.iter().filter_map(|e| if let Ev::NextId(i) = e { Some(*i) } else { None }).collect();
             let regs: Vec<usize> = evs.iter().filter_map(|e| if let Ev::WriteAsync(i) = e { Some(*i) } else { None }).collect();
-            if ids.len() != 1 || regs.len() > 1 || regs.iter().any(|r| *r != ids[0]) {
+            // a nested carrier draws two ids and (flag on) registers two values, the inner one first
+            let n_expected = if nested { 2 } else { 1 };
+            if ids.len() != n_expected || (regs.len() != 0 && regs.len() != n_expected) || regs.iter().any(|r| !ids.contains(r)) {
                 return format!("w ? ids={ids:?} writes={regs:?} ## fail id-protocol");
             }
-            let (id, reg) = (ids[0], regs.len() == 1);
+            let reg = !regs.is_empty();
+            // which id is the outer carrier's: the one registered last (its write follows the
+            // initialiser / the fetcher call); without registration the ids are not used
+            let (id, inner_id) = if nested {
+                if reg { (regs[1], regs[0]) } else { (ids[0], ids[1]) }
+            } else {
+                (ids[0], 0)
+            };
             let k = c.writes.len();
             c.keep.push(keep);
             c.completers.push(if reg { completer } else { None });
@@ -1656,6 +1738,7 @@ fn op(c: &mut Case, tags: &HashMap<String, String>, line: &str) -> String {
                 kind,
                 variant,
                 blocking,
+                nested,
                 raw,
                 enc: enc.clone(),
                 reg,
@@ -1665,6 +1748,25 @@ fn op(c: &mut Case, tags: &HashMap<String, String>, line: &str) -> String {
                 completed: reg && variant == Variant::Shared,
                 emitted: 0,
             });
+            let mut inner_shown = String::new();
+            if nested {
+                c.completers.push(None);
+                c.writes.push(W {
+                    id: inner_id,
+                    kind: Kind::Str,
+                    variant: Variant::Shared,
+                    blocking: false,
+                    nested: false,
+                    raw: inner_value.clone().into_bytes(),
+                    enc: inner_value,
+                    reg,
+                    late: c.final_seen || c.consume_started,
+                    consumed: false,
+                    completed: reg,
+                    emitted: 0,
+                });
+                inner_shown = format!(" inner={inner_id}");
+            }
             // oracle: a value is handed to `write_async` exactly when the flag is on — whatever the
             // carrier, blocking or not (else the client has to load it again)
             let verdict = if hyd && !reg {
@@ -1674,7 +1776,7 @@ fn op(c: &mut Case, tags: &HashMap<String, String>, line: &str) -> String {
             } else {
                 "ok"
             };
-            format!("w {k} {id} {} enc={} ## {verdict}", reg as u8, hex(enc.as_bytes()))
+            format!("w {k} {id} {} enc={}{inner_shown} ## {verdict}", reg as u8, hex(enc.as_bytes()))
         }
         ["err", b, e, h] => {
             let (Ok(b), Ok(e), Some(m)) = (b.parse::<usize>(), e.parse::<usize>(), unhex_str(h)) else {
@@ -1812,7 +1914,9 @@ fn op(c: &mut Case, tags: &HashMap<String, String>, line: &str) -> String {
                     }
                     Created::Write(k, true) => {
                         let wr = &c.writes[*k];
+                        NEST.with(|n| *n.borrow_mut() = if wr.nested { Some(inner_value_of(&wr.raw)) } else { None });
                         let st = with_kind!(wr.kind, client_make(&owner, &ctx, wr.variant, wr.blocking, &wr.raw, &fetches, &mut keep));
+                        NEST.with(|n| *n.borrow_mut() = None);
                         shown.push(format!("{k}:{}", st.show()));
                         if present.contains(&wr.id) && st != Status::Ok {
                             bad = true;
